@@ -5,6 +5,7 @@
 //! plemma: C19 call-site precondition of KVStore::remove in cleanup_stale_updates / cleanup_stale_updates_for_monitor_to / cleanup_in_range and of both clean-up calls after the consolidating write in update_persisted_channel: id_of_name(key) <= stored_latest(monitor key) -- clean-up never deletes an update that recovery still needs
 //! trusted: R13: `for x in a..=b` rewritten into an explicit loop over the inclusive range
 //! trusted: R15 (deep slice): update_persisted_channel builds its result from async-move blocks (impl Future, outside the verifier); the unit extracts the body of the block that runs after the consolidating full-monitor write verbatim as an async fn of (monitor_name, latest_update_id, write_status), together with the function-local const LEGACY_CLOSED_CHANNEL_UPDATE_ID; its precondition is the meaning of a successful write: the stored full monitor then is the one just written (stored_latest == its latest_update_id); the decision update-vs-full-monitor and the writes themselves are dropped and not claimed
+//! trusted: R15 (deep slice): maybe_read_channel_monitor_with_updates joins futures and iterator adapters; the unit extracts the filter predicate that selects the updates to replay verbatim; sorting (sort_unstable on (id, name)), reading and applying the updates are dropped and not claimed
 //! assume: stored_latest(key) is stable for the duration of the functions (no concurrent writer replaces the full monitor with an older one)
 use vstd::prelude::*;
 verus! {
@@ -147,6 +148,21 @@ impl MonitorUpdatingPersisterAsyncInner {
     let end = latest_update_id;
 //@with
     let end = latest_update_id + 1;
+//@end
+
+// ---- recovery: which stored updates are replayed on top of the stored full monitor (deep R15 slice) ----
+//@extract lightning/src/util/persist.rs :: impl MonitorUpdatingPersisterAsyncInner :: fn maybe_read_channel_monitor_with_updates
+//@slice R15
+    let updates_to_load = updates.iter().filter(|update| $pred);
+//@with
+    fn update_is_replayed(update: &UpdateName, current_update_id: u64) -> bool { $pred }
+//@ret r
+//@ensures P C19 recovery-replays-exactly-the-stored-updates-above-the-stored-monitors-own-update-id
+    r == (update.0 > current_update_id),
+//@mutant update_already_in_the_monitor_replayed
+    update.0 > current_update_id
+//@with
+    update.0 >= current_update_id
 //@end
 }
 }
